@@ -196,7 +196,7 @@ func checkC11(r *mon.Run) {
 	r.Rule = "Oracle A: recording afero.Fs around MemMapFs installed through FSWrapper.SetFS (object API) and fs.SetFS (legacy API); every predefined efivar definition, caller-assembled definitions of well-known names with their own mask (0 or one bit) + arbitrary (name, GUID incl. leading-zero fields, mask) triples; values empty/boolean/string/database/signed update/raw; stored masks equal, superset, each single-bit subset, disjoint; files absent, 0..3 bytes, exactly 4 bytes; several efivars directories incl. relative ones; every typed accessor (PK, KEK, db, dbx, SetupMode, SecureBoot, LoaderEntrySelected, GetBootEntry over 117+ boot numbers) against stored masks lacking each required bit, supersets and 0. Trace spec for a write: OpenFile(<dir>/<Name>-<lower-case GUID>, O_WRONLY|O_CREATE[|O_APPEND iff APPEND_WRITE]) · one Write(attrs_le32‖value) · Close, nothing else. Reads: value = bytes after the first four, stored mask returned, wrong-attributes error without decoding when a required attribute is missing, errors for absent/short files. Oracle B: the same writes through the OS filesystem in a child under strace; offline check of the syscall log. distinct = (API, variable kind, mask relation, value kind, file state)"
 	r.Assume("observation point is the afero.Fs boundary (A) and the syscall boundary (B); the legacy writer's read-only immutable-flag probe of the same path is permitted (not a write)")
 	nops := r.N(5000, 200000)
-	dirs := []string{efivarsDir, "/sys/firmware/efi/efivars-verif-fake", "/x", "verif-relative/efivars", "e"}
+	dirs := []string{efivarsDir, "/sys/firmware/efi/efivars-verif-fake", "/x", "verif-relative/efivars", "e", "/mnt/efi%20vars", "/srv/%s/100%/efivars%d"}
 	// sequential: the legacy API and attributes.Efivars are process-global
 	shared := efivarfs.NewFS() // one long-lived object used across directory changes
 	for i := 0; i < nops; i++ {
